@@ -11,6 +11,30 @@ use serde_json::{json, Value};
 use std::io::Cursor;
 use std::sync::atomic::{AtomicU64, Ordering};
 
+/// A reader that returns at most `cap` bytes per read call.
+struct ShortR<'a> {
+    d: &'a [u8],
+    pos: usize,
+    cap: usize,
+}
+impl std::io::Read for ShortR<'_> {
+    fn read(&mut self, buf: &mut [u8]) -> std::io::Result<usize> {
+        let n = buf.len().min(self.cap).min(self.d.len() - self.pos);
+        buf[..n].copy_from_slice(&self.d[self.pos..self.pos + n]);
+        self.pos += n;
+        Ok(n)
+    }
+}
+impl tokio::io::AsyncRead for ShortR<'_> {
+    fn poll_read(mut self: std::pin::Pin<&mut Self>, _cx: &mut std::task::Context<'_>, buf: &mut tokio::io::ReadBuf<'_>) -> std::task::Poll<std::io::Result<()>> {
+        let n = buf.remaining().min(self.cap).min(self.d.len() - self.pos);
+        let (p, d) = (self.pos, self.d);
+        buf.put_slice(&d[p..p + n]);
+        self.pos += n;
+        std::task::Poll::Ready(Ok(()))
+    }
+}
+
 pub struct Obs {
     pub d_sync: Delta,
     pub d_async: Delta,
@@ -25,6 +49,23 @@ fn lib_roundtrip(basis: &[u8], source: &[u8], bs: usize, legal: bool) -> Result<
         return Err(("sig_mismatch", "Signature::generate differs from per-block BlockSignature::compute".into()));
     }
     if legal {
+        // readers that return short, unaligned reads (pipes, sockets, chained readers)
+        for cap in [1usize, 7, 1000] {
+            if basis.len() > 4096 && cap == 1 {
+                continue;
+            }
+            let s4 = CopiaSync::with_block_size(bs).signature(ShortR { d: basis, pos: 0, cap }).map_err(|e| ("error", format!("sync signature (short reads): {e}")))?;
+            let s5 = block_on(AsyncCopiaSync::with_block_size(bs).signature(ShortR { d: basis, pos: 0, cap })).map_err(|e| ("error", format!("async signature (short reads): {e}")))?;
+            if s4 != sig || s5 != sig {
+                return Err(("sig_mismatch", format!("signature depends on how the reader chunks its data (reads of <= {cap} bytes): sync ok={}, async ok={}", s4 == sig, s5 == sig)));
+            }
+            let d4 = CopiaSync::new().delta(ShortR { d: source, pos: 0, cap }, &sig).map_err(|e| ("error", format!("sync delta (short reads): {e}")))?;
+            let d5 = block_on(AsyncCopiaSync::new().delta(ShortR { d: source, pos: 0, cap }, &sig)).map_err(|e| ("error", format!("async delta (short reads): {e}")))?;
+            let dref = CopiaSync::new().delta(&source[..], &sig).map_err(|e| ("error", format!("{e}")))?;
+            if d4 != dref || d5 != dref {
+                return Err(("engine_mismatch", format!("delta depends on how the reader chunks its data (reads of <= {cap} bytes)")));
+            }
+        }
         let s2 = CopiaSync::with_block_size(bs).signature(&basis[..]).map_err(|e| ("error", format!("sync signature: {e}")))?;
         let s3 = block_on(AsyncCopiaSync::with_block_size(bs).signature(&basis[..])).map_err(|e| ("error", format!("async signature: {e}")))?;
         if s2 != sig || s3 != sig {
@@ -95,7 +136,9 @@ fn c16_oracle(basis: &[u8], source: &[u8], bs: usize, obs: &Obs, edit: Option<&V
         }
         if let Some(e) = edit {
             let op = e["op"].as_str().unwrap_or("");
-            if matches!(op, "insert" | "delete" | "replace") && distinct_blocks(basis, bs) {
+            // the corollary speaks about "a file of distinct blocks": a short tail is never a matchable
+            // block (also for the textbook scan), so only bases that are a whole number of blocks qualify
+            if matches!(op, "insert" | "delete" | "replace") && distinct_blocks(basis, bs) && basis.len() % bs == 0 {
                 let k = match e["k"].as_str().unwrap_or("1") {
                     "7" => 7,
                     "B-1" => bs as u64 - 1,
@@ -152,6 +195,14 @@ fn eval_case(which: Which, basis: &[u8], source: &[u8], bs: usize, legal: bool, 
 fn materialise(case: &Value, seed: u64) -> (Vec<u8>, Vec<u8>, usize, bool, Option<Value>) {
     if case["level"] == "byte" {
         (unhex(case["basis"].as_str().unwrap_or("")), unhex(case["source"].as_str().unwrap_or("")), case["bs"].as_u64().unwrap_or(1) as usize, false, None)
+    } else if case["level"] == "rotate" {
+        // A B C -> A A C : same length, every source block exists in the basis
+        let b = case["B"].as_u64().unwrap_or(512) as usize;
+        let basis = build_basis("R1,R2,H", b, seed);
+        let mut source = basis.clone();
+        let (first, rest) = source.split_at_mut(b);
+        rest[..b].copy_from_slice(first);
+        (basis, source, b, true, None)
     } else if case["level"] == "odd" {
         let bs = case["bs"].as_u64().unwrap_or(1) as usize;
         let (basis, source) = odd_case(case["len"].as_u64().unwrap_or(0) as usize, case["content"].as_str().unwrap_or("rand"), case["edit"].as_str().unwrap_or("identity"), seed);
@@ -418,6 +469,11 @@ fn run_cli_part(ctx: &Ctx, samples: &mut Vec<Value>, bounds: &mut serde_json::Ma
             }
         }
     }
+    // block permutations / repetitions of the same total size (a copy-only delta that still changes the file)
+    for (spec, op) in [("R1,R2,H", "reverse"), ("R1,R2", "reverse"), ("R1,R2,F", "dupfirst"), ("Z,R1,R2", "dropfirst"), ("R1,W,R2", "reverse")] {
+        jobs.push(json!({"level":"chunk","B":512,"basis":spec,"edit":{"op":op}}));
+    }
+    jobs.push(json!({"level":"rotate","B":512}));
     for bs in [512usize, 65536] {
         jobs.push(json!({"level":"odd","bs":bs,"len":1000,"content":"rand","edit":"big_different"}));
         jobs.push(json!({"level":"odd","bs":bs,"len":200000,"content":"rep","edit":"insert_mid"}));
